@@ -122,6 +122,17 @@ fn sc_twin(prop: &str) -> LevelCfg {
     c
 }
 
+/// SC-wide: four ids (up to four resting orders), two templates, few letters
+fn sc_wide(prop: &str) -> LevelCfg {
+    let ts = [Tmpl::S5, Tmpl::IC23];
+    let mut c = base_cfg(prop, "SC-wide", LEVEL_PRICE, tmpl_named(&ts, LEVEL_PRICE));
+    c.max_orders = 4;
+    c.ops = adds(&[1, 2, 3, 5], ts.len());
+    c.ops.extend(upds(&[1, 2, 3, 5], &[UpdKind::Cancel, UpdKind::Amend(1)]));
+    c.ops.extend(matches(&[2, 7, 1000]));
+    c
+}
+
 /// SC-edge: quantities at the 64-bit limits on a level of price 1
 fn sc_edge(prop: &str) -> LevelCfg {
     let m = u64::MAX;
@@ -211,6 +222,7 @@ pub fn plans(prop: &str, tier: &str) -> Vec<Plan> {
                 Plan { cfg: z, depth: d(6, 12) },
                 Plan { cfg: e, depth: d(5, 10) },
                 Plan { cfg: w, depth: d(4, 8) },
+                Plan { cfg: { let mut x = sc_wide(prop); x.check.c01 = true; x }, depth: d(6, 8) },
             ]
         }
         "C02" => {
@@ -274,9 +286,14 @@ pub fn plans(prop: &str, tier: &str) -> Vec<Plan> {
                     UpdKind::ReplaceSame(3),
                 ],
             ));
+            let mut x = sc_wide(prop);
+            x.check.c04 = true;
+            x.check.drain = true;
+            x.variants = vec![(false, false), (true, false), (false, true), (true, true)];
             vec![
                 Plan { cfg: o, depth: d(6, 8) },
                 Plan { cfg: a, depth: d(5, 7) },
+                Plan { cfg: x, depth: d(6, 8) },
             ]
         }
         "C06" => {
@@ -286,9 +303,14 @@ pub fn plans(prop: &str, tier: &str) -> Vec<Plan> {
             let mut a = sc_types(prop, &[]);
             a.check.c06 = true;
             a.check.drain = true;
+            let mut x = sc_wide(prop);
+            x.check.c06 = true;
+            x.check.drain = true;
+            x.ops.extend(upds(&[1, 2, 3, 5], &[UpdKind::Amend(0)]));
             vec![
                 Plan { cfg: z, depth: d(7, 13) },
                 Plan { cfg: a, depth: d(4, 7) },
+                Plan { cfg: x, depth: d(6, 8) },
             ]
         }
         "C07" => {
